@@ -55,6 +55,43 @@ fn main() {
         println!("{:016x}", r.to_bits());
         return;
     }
+    if prop == "catalogue" {
+        for e in symx::catalogue::catalogue() {
+            for d in 1..=6usize {
+                let sig: Vec<Vec<isize>> = vec![vec![0; e.ograph().num_loops().max(1)]; e.ne()];
+                let ok = match d {
+                    1 => e.graph().build_sampler::<1>(sig).is_ok(),
+                    2 => e.graph().build_sampler::<2>(sig).is_ok(),
+                    3 => e.graph().build_sampler::<3>(sig).is_ok(),
+                    4 => e.graph().build_sampler::<4>(sig).is_ok(),
+                    5 => e.graph().build_sampler::<5>(sig).is_ok(),
+                    _ => e.graph().build_sampler::<6>(sig).is_ok(),
+                };
+                let dod = e.ograph().dod(d);
+                let listed = e.dims.contains(&d);
+                if ok && dod > num::BigRational::from_integer(0.into()) || listed {
+                    println!("{} D={} accepted={} dod={} listed={}", e.name, d, ok, dod, listed);
+                }
+            }
+        }
+        return;
+    }
+    if prop == "probe-necklace" {
+        for wn in [5i64, 6, 7, 8, 9, 10, 12] {
+            for mass in [vec![], vec![4usize], vec![0], vec![0, 2], vec![0, 2, 4]] {
+                for ext in [vec![0u8, 2], vec![0, 1], vec![0, 1, 2], vec![1]] {
+                    for d in 1..=4usize {
+                        let edges: Vec<momtrop::Edge> = [(0u8, 1u8), (0, 1), (1, 2), (1, 2), (2, 0)].iter().enumerate().map(|(i, v)| momtrop::Edge { vertices: *v, is_massive: mass.contains(&i), weight: wn as f64 / 8.0 }).collect();
+                        let g = momtrop::Graph { edges, externals: ext.clone() };
+                        let sig = vec![vec![0isize; 3]; 5];
+                        let ok = match d { 1 => g.build_sampler::<1>(sig).map(|s| s.get_dod()), 2 => g.build_sampler::<2>(sig).map(|s| s.get_dod()), 3 => g.build_sampler::<3>(sig).map(|s| s.get_dod()), _ => g.build_sampler::<4>(sig).map(|s| s.get_dod()) };
+                        if let Ok(dod) = ok { if dod > 0.0 { println!("w={}/8 mass={:?} ext={:?} D={} dod={}", wn, mass, ext, d, dod); } }
+                    }
+                }
+            }
+        }
+        return;
+    }
     if prop == "native-gamma" {
         let a: f64 = args[2].parse().unwrap();
         let p: f64 = args[3].parse().unwrap();
